@@ -694,22 +694,27 @@ fn input_shapes(prop: Prop, acc: &mut Acc) {
             let tree = RE::from_expr(&parsed);
             let mut env = PlainEnv { facts: rf.clone(), symbols: BTreeMap::new() };
             let exp = eval(&tree, &mut env);
-            let obs = eval_expr(&parsed, facts);
-            acc.count("executions", 1);
-            acc.count("input_shape_cases", 1);
-            acc.outcome(format!("shape:{}:{}", sname, obs.class()));
-            let bad = match prop {
-                Prop::C01 => matches!(obs, Obs::Panic(_)),
-                Prop::C02 | Prop::C04 => conforms(&exp, &obs) == Some(false),
-                _ => false,
-            };
-            if bad {
-                acc.violation(Violation {
-                    sig: format!("input-shape/{sname}/{text}/{}", obs.class()),
-                    what: format!("`{text}` on {sname} input: expected {}, observed {}", show_exp(&exp), obs.show()),
-                    case: json!({"kind": "shape", "text": text, "facts": rf.to_json()}),
-                    size: text.len(),
-                });
+            // three routes for the input: a hand-built Value through Expr::evaluate, and a serde type
+            // through RuleSet::evaluate (a None written as unit and as Option::None)
+            for (route, obs) in [("value", eval_expr(&parsed, facts)), ("serde", eval_via_serde(&parsed, &rf, true)), ("serde-option", eval_via_serde(&parsed, &rf, false))] {
+                // symbols / functions are not registered in the serde route's ruleset either, so the
+                // expectation is the same
+                acc.count("executions", 1);
+                acc.count("input_shape_cases", 1);
+                acc.outcome(format!("shape:{}:{}", sname, obs.class()));
+                let bad = match prop {
+                    Prop::C01 => matches!(obs, Obs::Panic(_)),
+                    Prop::C02 | Prop::C04 => conforms(&exp, &obs) == Some(false),
+                    _ => false,
+                };
+                if bad {
+                    acc.violation(Violation {
+                        sig: format!("input-shape/{sname}/{text}/{route}/{}", obs.class()),
+                        what: format!("`{text}` on {sname} input ({route} route): expected {}, observed {}", show_exp(&exp), obs.show()),
+                        case: json!({"kind": "shape", "text": text, "facts": rf.to_json()}),
+                        size: text.len(),
+                    });
+                }
             }
         }
     }
@@ -1210,13 +1215,14 @@ pub fn replay(prop: Prop, case: &J) -> i32 {
             };
             let mut env = PlainEnv { facts: facts.clone(), symbols: BTreeMap::new() };
             let exp = eval(&RE::from_expr(&parsed), &mut env);
-            let obs = eval_expr(&parsed, &facts.to_value());
-            println!("text {text:?} on {}: reference {}, observed {}", facts.show(), show_exp(&exp), obs.show());
-            if matches!(obs, Obs::Panic(_)) || conforms(&exp, &obs) == Some(false) {
-                1
-            } else {
-                0
+            let mut rc = 0;
+            for (route, obs) in [("value", eval_expr(&parsed, &facts.to_value())), ("serde", eval_via_serde(&parsed, &facts, true)), ("serde-option", eval_via_serde(&parsed, &facts, false))] {
+                println!("text {text:?} on {} ({route} route): reference {}, observed {}", facts.show(), show_exp(&exp), obs.show());
+                if matches!(obs, Obs::Panic(_)) || conforms(&exp, &obs) == Some(false) {
+                    rc = 1;
+                }
             }
+            rc
         }
         _ => {
             println!("unknown case kind");
